@@ -58,6 +58,26 @@ def rdMask : RdM Mask := do
   else if t.startsWith "S" then pure (Mask.single n)
   else failure
 
+def rdExt : RdM ExtRat := do
+  let t ← tok
+  if t == "inf" then pure .inf else do
+    let r ← (parseRat? t : Option Rat)
+    pure (.fin r)
+
+def showExt : ExtRat → String
+  | .inf => "inf"
+  | .fin r => showRat r
+
+def rdScheme : RdM Scheme := do
+  let t ← tok
+  (Scheme.ofString? t : Option Scheme)
+
+def showKThr : KThr → String
+  | .keep => "keep" | .zero => "zero" | .inf => "inf"
+
+def showOptBool : Option Bool → String
+  | none => "-" | some b => showBool b
+
 def showPMap (w : PMap) : String :=
   " ".intercalate (flavorBasisPids.map fun p => showRat (w p))
 
@@ -113,6 +133,19 @@ def handle (op : String) : RdM String := do
   | "combiner" => do
       let (e, fl, pa) ← rdEsf
       pure (" ; ".intercalate ((collectElems e fl pa).map showKernel))
+  | "nf" => do       -- nf_default: nf q2 w1 w2 w3
+      let q2 ← rat; let a ← rdExt; let b ← rdExt; let c ← rdExt
+      match nfDefault q2 [a, b, c] with
+      | some n => pure (toString n)
+      | none => pure "rejected"
+  | "fns" => do      -- update_fns: fns scheme nfff
+      let s ← rdScheme; let n ← nat
+      pure (" ".intercalate ((List.range 3).map fun k =>
+        let (kt, zm) := updateFns s n k
+        s!"{showKThr kt}:{showOptBool zm}"))
+  | "ms" => do       -- matching scales: ms scheme nfff m2×3 k2×3
+      let s ← rdScheme; let n ← nat; let m2 ← rats 3; let k2 ← rats 3
+      pure (" ".intercalate ((matchingScales s n m2 k2).map showExt))
   | "target" => do   -- update_target table
       let t ← tok
       let name := if t == "_" then "" else t
